@@ -1022,6 +1022,12 @@ class SQLObject(with_metaclass(declarative.DeclarativeMeta, object)):
                     raise SQLObjectNotFound(
                         "The object %s by the ID %s has been deleted" % (
                             self.__class__.__name__, self.id))
+                if self.sqlmeta.lazyUpdate and self._SO_createValues:
+                    # unwritten assignments stay visible after the reload
+                    selectResults = [
+                        self._SO_createValues.get(col.name, value)
+                        for col, value in zip(self.sqlmeta.columnList,
+                                              selectResults)]
                 self._SO_selectInit(selectResults)
                 result = getattr(self, attrName)
                 return result
